@@ -24,7 +24,18 @@ var (
 	VerifDir   = "/verif"
 	BuildDir   = "/verif/.build"
 	ScratchDir = "/verif/.build/scratch"
+	OutDir     = "/verif" // evidence/ and replays/ live here
 )
+
+func init() {
+	if bd := os.Getenv("VERIF_BUILD_DIR"); bd != "" { // development aid, see bin/env.sh
+		BuildDir = bd
+		ScratchDir = filepath.Join(bd, "scratch")
+	}
+	if od := os.Getenv("VERIF_OUT"); od != "" {
+		OutDir = od
+	}
+}
 
 // Finding is one line of known-findings.jsonl.
 type Finding struct {
@@ -654,7 +665,7 @@ func Run(p *Prop, tier string, seed int, self string) int {
 		r.Budget = time.Duration(v) * time.Second
 	}
 	_ = os.MkdirAll(ScratchDir, 0o755)
-	_ = os.MkdirAll(filepath.Join(VerifDir, "evidence"), 0o755)
+	_ = os.MkdirAll(filepath.Join(OutDir, "evidence"), 0o755)
 
 	killed, total := 0, 0
 	var stNotes []string
@@ -722,7 +733,7 @@ func Run(p *Prop, tier string, seed int, self string) int {
 	var proposals []Finding
 	var known, unconfirmed, flaky []string
 	knownSeen := map[*Finding]int{}
-	_ = os.MkdirAll(filepath.Join(VerifDir, "replays"), 0o755)
+	_ = os.MkdirAll(filepath.Join(OutDir, "replays"), 0o755)
 	for _, st := range all {
 		if 0 < st.Attempts && st.Confirmed == 0 {
 			unconfirmed = append(unconfirmed, st.Sig)
@@ -813,7 +824,7 @@ type Replay struct {
 
 func (r *Runner) writeReplay(st *sigTotal) string {
 	h := sha256.Sum256([]byte(st.Sig + "\x00" + first(st.Specs)))
-	path := filepath.Join(VerifDir, "replays", fmt.Sprintf("%s-%s.json", r.P.ID, hex.EncodeToString(h[:6])))
+	path := filepath.Join(OutDir, "replays", fmt.Sprintf("%s-%s.json", r.P.ID, hex.EncodeToString(h[:6])))
 	rp := Replay{Property: r.P.ID, Signature: st.Sig, Spec: first(st.Specs), Detail: st.Detail, Count: st.Count,
 		Confirmed: fmt.Sprintf("%d/%d", st.Confirmed, st.Attempts), Tier: r.Tier,
 		How: "bin/check --replay " + path + "   (re-executes exactly this case in a fresh process, no explorer)"}
@@ -905,7 +916,7 @@ func (r *Runner) writeEvidence(violations int, known, unconfirmed, flaky []strin
 		"violations":  violations,
 	}
 	b, _ := json.MarshalIndent(ev, "", " ")
-	_ = os.WriteFile(filepath.Join(VerifDir, "evidence", p.ID+".json"), append(b, '\n'), 0o644)
+	_ = os.WriteFile(filepath.Join(OutDir, "evidence", p.ID+".json"), append(b, '\n'), 0o644)
 }
 
 func trunc(s string, n int) string {
